@@ -223,7 +223,7 @@ def run(ctx):
         for policy in (0, 1, 2):
             for ci in range(nchunk):
                 args.append((shard_hist, (ctx.seed, name, members, policy, hs[ci::nchunk], 2 if ci % 2 else 0)))
-    nr = 300 if ctx.tier == 'quick' else 6000
+    nr = 1000 if ctx.tier == 'quick' else 12000
     for i in range(8):
         args.append((shard_random, (ctx.seed * 97 + i, nr, 14)))
     core.run_shards(ctx, _dispatch, args)
